@@ -45,6 +45,26 @@ from crosshair.statespace import context_statespace  # type: ignore
 from crosshair.tracers import is_tracing  # type: ignore
 
 
+def _disable_premature_realization():
+    """CrossHair forks every int/bool/str/list argument into 'symbolic' and 'prematurely realised' (a heuristic for bug
+    *hunting*).  For exhaustive bounded exploration the realised twin only duplicates work (and never exhausts for
+    unbounded ints), so arguments are always created symbolic here."""
+    import crosshair.core as _core
+    from crosshair.libimpl import builtinslib as _bl
+
+    def always_symbolic(typ):
+        def make(creator, *type_args):
+            return typ(creator.varname, creator.pytype)
+        return make
+    for pytype, symtype in ((bool, _bl.SymbolicBool), (int, _bl.SymbolicBoundedInt), (str, _bl.LazyIntSymbolicStr),
+                            (list, _bl.SymbolicList), (frozenset, _bl.SymbolicFrozenSet)):
+        if pytype in _core._SIMPLE_PROXIES:
+            _core._SIMPLE_PROXIES[pytype] = always_symbolic(symtype)
+
+
+_disable_premature_realization()
+
+
 class Violation(Exception):
     """The property is violated on this path."""
 
